@@ -282,7 +282,7 @@ func stressMain(args []string) {
 	seed, _ := strconv.ParseInt(args[0], 10, 64)
 	obj := args[1]
 	g, n, rounds := atoi(args[2]), atoi(args[3]), atoi(args[4])
-	total := 0
+	total, unknown := 0, 0
 	for round := 0; round < rounds; round++ {
 		rr := rand.New(rand.NewSource(seed*1000003 + int64(round)))
 		var do func(c call) string
@@ -390,9 +390,9 @@ func stressMain(args []string) {
 			dump()
 			return
 		case porcupine.Unknown:
-			fmt.Printf("checker-timeout object=%s round=%d\n", obj, round)
-			return
+			// the checker ran out of time: inconclusive, never reported as a violation
+			unknown++
 		}
 	}
-	fmt.Printf("ok %d rounds %d ops\n", rounds, total)
+	fmt.Printf("ok %d rounds %d ops (%d rounds inconclusive: checker time-out)\n", rounds, total, unknown)
 }
